@@ -8,6 +8,12 @@ PROPS = {
         "floors": {"quick": {"mutants_decodable": 5000, "probes_same_assoc": 5000}, "thorough": {"mutants_decodable": 200000}},
         "wedge_patterns": [r"pfcpiface\.\(\*PFCPConn\)\.\w+", r"pfcpiface\.\(\*PFCPNode\)\.handleNewPeers"],
     },
+    "C02": {
+        "test": "TestVerif_C02", "level": "exploration",
+        "rule": "random histories over 1-3 associations x up to 5 sessions on both datapaths mixing accepted requests (establish with fixed/CHOOSE F-TEID and fixed/allocated UE address, modify: update FAR/QER/PDR, create, remove, CP F-SEID change, delete, heartbeat, PFD management, release) with rejected ones (unknown SEID, wrong Node ID, no association) and response-type messages; boundary 24-bit sequence numbers and 64-bit CP SEIDs; every reply counted between heartbeat barriers and compared field by field; distinct = <request kind, outcome, number of live sessions of the association, sequence-number class>",
+        "shards": {"quick": 12, "thorough": 16}, "timeout": {"quick": 600, "thorough": 14000},
+        "floors": {"quick": {"requests": 3000, "responses_decoded": 2500}, "thorough": {"requests": 100000}},
+    },
     "C10": {
         "test": "TestVerif_C10", "level": "exploration",
         "rule": "scenario = {0..n associations (some >100)} x {0-3 sessions} x trigger per association {release, silence->read timeout(+heartbeat failure), unanswered heartbeats, live} x requests in flight x datapath reply delay x PFCPIface.Stop() at a drawn offset (+-3.5 ms around the coinciding triggers), fresh agent per scenario, plus a 'refresh' family (association ends without Stop, same address:port associates afresh, bystander association checked); distinct = distinct interleaving signatures (datapath, heartbeat on/off, delay, stop offset in ms, multiset of per-association <trigger, order relative to Stop, release answered?, sessions>)",
